@@ -106,7 +106,7 @@ def complies(cls, orig, new):
 
 
 def secrets_menu(tier, seed):
-    out = []
+    out = ["$9$ab", "$9$abc!defghij", "$9$"]
     for sd in range(16):
         for plain in ("k", "Zq", "pW3"):
             e = refs.type7_encode(plain, sd)
